@@ -58,8 +58,8 @@ def gen_cases(rng, tier):
             case["method"] = rng.choice(SQ)
             mode = rng.choice(["default", "explicit", "quantile", "quantile_pair"])
             case["mode"] = mode
-            case["base"] = rng.choice([None, None, 2.0, 10.0])
-            case["keep_sign"] = rng.random() < 0.2
+            case["base"] = rng.choice([None, None, 2.0, 10.0, 10.0])
+            case["keep_sign"] = rng.random() < 0.35
             if mode == "explicit":
                 case["r"] = rng.choice([0.5, 1.0, 3.0])
                 # x0 is accepted for every method (the gaussian / exponential squashes document it in their formula but
